@@ -1,9 +1,10 @@
 """C19 - a Timer fires exactly at its expiry, and stop/restart always take effect"""
-from . import tcp as T, kernel as K, elements
+from . import tcp as T, kernel as K, elements, whomay
 
 def check(ctx):
     T.run_tables(ctx, 'C19', [('Timer', '__init__'), ('Timer', 'run'), ('Timer', 'wait'), ('Timer', 'stop'),
                               ('Timer', 'restart'), ('TCPPacketGenerator', 'timeout_callback')])
+    whomay.active_process_discipline(ctx, 'C19')
     elements.timer_args_shape(ctx, 'C19')
     elements.timer_no_self_interrupt(ctx, 'C19')
     elements.interrupt_guards_imply_precondition(ctx, 'C19')
